@@ -25,7 +25,10 @@ TRUSTED = ["libm sqrt (rmse, Pearson, KGE): sqrt is uninterpreted in the model; 
 ASSUMPTIONS = ["inputs are dyadic rationals of small magnitude so float + - * and comparisons are exact; quotients, "
                "non-dyadic quantile levels and sqrt are compared to 1e-9",
                "float rounding, overflow and signed zero are not modelled",
-               "reduce_dims / preserve_dims are always passed as lists (bare strings are C01 / F1)"]
+               "reduce_dims / preserve_dims are passed in every spelling (absent, explicit None, 'all', a bare dimension name, "
+               "lists incl. every-dim and empty lists); the harness reads the DOCUMENTED meaning of the request (reduce_set), "
+               "the dimension bookkeeping itself is C01",
+               "weights carry no dimension the data lacks (F9) and are non-negative"]
 MANIFEST = dict(
     level="proof",
     text="Kernel-checked Lean theorems about the pointwise kernels regenerated from functions.py, standard_impl.py, "
@@ -39,18 +42,27 @@ MANIFEST = dict(
          "raw-moment forms; over the reals rmse^2 = mse, KGE(f,f) = 1, MSE decomposition with sigma and rho.  Tied to the code "
          "by the translator, by a differential correspondence of every public function (xarray and pandas entry points, "
          "kge with components) against the model, and by an independent oracle evaluating the textbook Spec in exact "
-         "arithmetic plus 20 relational laws between implementation runs.",
+         "arithmetic plus relational laws between implementation runs.  A systematic sweep puts every xarray-level function "
+         "through every spelling of the dims request (default, None, 'all' to reduce / to preserve, bare name, lists, "
+         "preserve-all, empty list) x without / with weights other than 0/1, against the model and against the Spec; the laws "
+         "between two public functions (rmse^2 = mse linear and angular, interval = quantile-interval at symmetric levels, "
+         "interval = scaled pinball sum, obs on an end = mean width, pinball(1/2) = mae/2, mean_error = additive_bias, "
+         "pbias = 100(multiplicative_bias - 1), angular score = linear score of the angular difference, pandas = xarray entry "
+         "point, one request = the same request written as lists) are evaluated under the same product of spellings and weights.",
     note="Trusted: Lean kernel; propext/Classical.choice/Quot.sound; py2lean translator; SV.Fl (IEEE minus rounding, overflow, "
          "signed zero); the hand model of apply_weights/broadcast_and_match_nan/mean(skipna)/std/xr.corr on one fibre (tied by "
          "correspondence only; the harness does broadcasting and grouping, dimension handling itself is C01); sqrt is "
          "uninterpreted in the model: rmse, Pearson and KGE are compared through exact mse / moments / the translated KGE tail "
          "evaluated on float sigma and rho, and the sqrt theorems are about the formula over the reals, not libm; dyadic "
-         "inputs, tolerance 1e-9; reduce_dims/preserve_dims always lists (bare strings: C01/F1); Dataset inputs and "
-         "coordinate alignment are not generated.",
+         "inputs, tolerance 1e-9; the meaning of each request spelling is the harness's reading of the documentation "
+         "(reduce_set); weights never carry a dimension the data lacks (F9); Dataset inputs and coordinate alignment are not "
+         "generated.",
     technique="Lean 4 theorems over translator-regenerated kernels + hand reduction model + differential correspondence + exact Spec oracle",
     design="6/C05")
 RULE = ("random labelled arrays (1-2 dims, sizes 1-5) over a dyadic pool with 40-60 % of observations copied from the "
-        "forecast / an interval end, NaN in every slot, optional weights, list-valued reduce/preserve requests; "
+        "forecast / an interval end, NaN in every slot, optional weights, reduce/preserve requests in every spelling "
+        "(absent, None, 'all', bare name, lists, every-dim list, empty list); plus a systematic sweep function x request "
+        "spelling x without/with non-0/1 weights, and relational laws walked round-robin through the same product; "
         "parameters from pools containing both sides of each boundary; distinct = distinct canonical case; "
         "non-trivial = at least one output cell is not NaN and the case is not in the malformed stream")
 
@@ -105,14 +117,39 @@ def full_layout(case, names):
     return dims, shape, out
 
 
+def req_names(v):
+    """a request value (list of names | bare dimension name | 'all') -> list of names, or 'all'"""
+    if isinstance(v, str):
+        return "all" if v == "all" else [v]
+    return list(v)
+
+
 def reduce_set(case):
+    """the dimensions the DOCUMENTED meaning of the request averages over.  A request value is a list of names, a bare
+    dimension name (str), the word 'all', or None (= not given); both None / absent = reduce everything"""
     dims = sorted(case["sizes"])
     req = case["req"]
-    if "reduce_dims" in req:
-        return [d for d in dims if d in req["reduce_dims"]]
-    if "preserve_dims" in req:
-        return [d for d in dims if d not in req["preserve_dims"]]
+    if req.get("reduce_dims") is not None:
+        names = req_names(req["reduce_dims"])
+        return dims if names == "all" else [d for d in dims if d in names]
+    if req.get("preserve_dims") is not None:
+        names = req_names(req["preserve_dims"])
+        return [] if names == "all" else [d for d in dims if d not in names]
     return dims
+
+
+def req_spelling(req):
+    """name of the way the request is written (measured input distribution, failure tags)"""
+    for k in ("reduce_dims", "preserve_dims"):
+        if k in req:
+            v = req[k]
+            if v is None:
+                continue
+            short = k.split("_")[0]
+            if isinstance(v, str):
+                return short + ("-all" if v == "all" else "-str")
+            return short + ("-empty-list" if len(v) == 0 else "-list")
+    return "explicit-none" if req else "default"
 
 
 def fibres(case):
@@ -132,7 +169,13 @@ def req_kwargs(case):
     out = {}
     for k in ("reduce_dims", "preserve_dims"):
         if k in req:
-            out[k] = ["".join(list(d)) for d in req[k]]   # fresh str objects
+            v = req[k]
+            if v is None:
+                out[k] = None
+            elif isinstance(v, str):
+                out[k] = "".join(list(v))                  # bare dimension name or 'all': fresh str object
+            else:
+                out[k] = ["".join(list(d)) for d in v]     # fresh str objects
     return out
 
 
@@ -183,14 +226,30 @@ def sub_dims(rng, dims, p_same=0.75):
     return d
 
 
+def all_reqs(dims):
+    """EVERY spelling of the dims request for these dims: default, explicit None, 'all' (reduce / preserve), a bare
+    dimension name, lists (proper subset, every dim = reduce-all / preserve-all, empty)"""
+    dims = list(dims)
+    out = [{}, {"reduce_dims": None, "preserve_dims": None}, {"reduce_dims": "all"}, {"preserve_dims": "all"}]
+    for k in ("reduce_dims", "preserve_dims"):
+        out += [{k: d} for d in dims]
+        if len(dims) > 1:
+            out += [{k: [d]} for d in dims]
+        out += [{k: dims[:]}, {k: dims[::-1]}, {k: []}]
+    return out
+
+
 def gen_req(rng, dims):
     dims = list(dims)
     r = rng.random()
-    if r < 0.3:
+    if r < 0.2:
         return {}
+    if r < 0.55:
+        # every spelling, uniformly: explicit None, 'all' (reduce/preserve), bare string, one-name list, full list, empty list
+        return dict(rng.choice(all_reqs(dims)))
     sub = [d for d in dims if rng.random() < 0.5] or [rng.choice(dims)]
     rng.shuffle(sub)
-    return {"reduce_dims": sub} if r < 0.65 else {"preserve_dims": sub}
+    return {"reduce_dims": sub} if r < 0.78 else {"preserve_dims": sub}
 
 
 def nsize(sizes, dims):
@@ -205,11 +264,29 @@ def copy_from(rng, target, source_spec, case, p):
     return target
 
 
-def gen_point_case(rng, kind, malformed=False):
+W_POOL = [0.0, 0.25, 0.5, 1.0, 1.0, 2.0, 3.0, 1.5]
+SWEEP_SIZES = [1, 2, 2, 2, 3, 3, 3, 4]     # sizes of the systematic sweep: mostly >= 2 so that a reduction really averages
+
+
+def gen_weights(rng, sizes, dims, pool, force):
+    """weights over a sub-list of dims; force=True: every dim, and at least one value that is neither 0 nor 1 (a 0/1 mask
+    cannot tell w*|e| from sqrt(w*e^2) or w from w^2)"""
+    wd = sub_dims(rng, dims, 1.0 if force else 0.5)
+    w = [rng.choice(pool + [NAN if rng.random() < 0.3 else 1.5]) for _ in range(nsize(sizes, wd))]
+    if force and not any(x == x and x not in (0.0, 1.0) for x in w):
+        w[rng.randrange(len(w))] = rng.choice([0.25, 0.5, 2.0, 3.0, 1.5])
+    return spec_of(wd, sizes, w)
+
+
+def gen_point_case(rng, kind, malformed=False, force=None):
+    """force = {"nd": number of dims, "req": the request, "weights": True | False} pins what is otherwise drawn"""
+    force = force or {}
     angular = kind.endswith("_ang")
     fn = kind
     pandas = kind.startswith("pandas_")
     sizes = {"a": rng.choice([1, 2, 3, 4, 5, 7])} if pandas else gen_sizes(rng)
+    if "nd" in force and not pandas:
+        sizes = {d: rng.choice(SWEEP_SIZES) for d in ["a", "b"][:force["nd"]]}
     dims = sorted(sizes)
     fd = dims[:]
     rng.shuffle(fd)
@@ -217,23 +294,22 @@ def gen_point_case(rng, kind, malformed=False):
     od = sub_dims(rng, dims, 0.7 if not pandas else 1.0)
     if kind in ("pearsonr", "kge") and rng.random() < 0.8:
         od = dims[:]
-    nan_p = rng.choice([0.0, 0.0, 0.1, 0.3])
+    nan_p = rng.choice([0.0, 0.0, 0.1, 0.3] if not force else [0.0, 0.0, 0.1])
     f = vals(rng, nsize(sizes, fd), angular, nan_p)
     o = vals(rng, nsize(sizes, od), angular, nan_p)
     case = {"kind": kind, "sizes": sizes, "fcst": spec_of(fd, sizes, f), "obs": spec_of(od, sizes, o), "weights": None,
-            "req": {} if pandas else gen_req(rng, dims), "params": {}, "malformed": malformed}
+            "req": {} if pandas else (force["req"] if "req" in force else gen_req(rng, dims)), "params": {},
+            "malformed": malformed}
     # ties: copy the forecast into the observation at ~half of the positions (same layout needed: only when dims agree)
     if sorted(od) == sorted(fd) and rng.random() < 0.7:
         fa = np.array(f, dtype=float).reshape([sizes[d] for d in fd])
         fa = fa.transpose([fd.index(d) for d in od]).reshape(-1)
-        p = rng.choice([0.3, 0.5, 1.0]) if rng.random() < 0.9 else 0.0
+        p = rng.choice([0.3, 0.5, 1.0] if not force else [0.3, 0.5]) if rng.random() < 0.9 else 0.0
         shift = rng.choice([0.0, 0.0, 180.0, 360.0, -360.0, 720.0]) if angular else 0.0
         o2 = [(fa[i] + shift if (rng.random() < p and not math.isnan(fa[i])) else o[i]) for i in range(len(o))]
         case["obs"] = spec_of(od, sizes, o2)
-    if kind not in ("pearsonr", "kge") and not pandas and rng.random() < 0.45:
-        wd = sub_dims(rng, dims, 0.5)
-        w = [rng.choice([0.0, 0.25, 0.5, 1.0, 1.0, 2.0, 3.0, NAN if rng.random() < 0.3 else 1.5]) for _ in range(nsize(sizes, wd))]
-        case["weights"] = spec_of(wd, sizes, w)
+    if kind not in ("pearsonr", "kge") and not pandas and force.get("weights", rng.random() < 0.45):
+        case["weights"] = gen_weights(rng, sizes, dims, W_POOL[:-1], bool(force.get("weights")))
     if kind == "quantile":
         case["params"]["alpha"] = S(rng.choice(BAD_ALPHAS) if malformed else rng.choice(ALPHAS))
     if kind == "kge":
@@ -246,7 +322,7 @@ def gen_point_case(rng, kind, malformed=False):
         case["params"]["include_components"] = rng.random() < 0.5
     # force interesting fibres now and then: all-NaN fibre, constant series, zero-mean obs
     r = rng.random()
-    if r < 0.06:
+    if r < 0.06 and not force:
         case["fcst"]["data"] = ["nan"] * len(case["fcst"]["data"])
     elif r < 0.12:
         c = S(core.dyadic(rng))
@@ -261,8 +337,11 @@ def gen_point_case(rng, kind, malformed=False):
     return case
 
 
-def gen_interval_case(rng, kind, malformed=False):
+def gen_interval_case(rng, kind, malformed=False, force=None):
+    force = force or {}
     sizes = gen_sizes(rng)
+    if "nd" in force:
+        sizes = {d: rng.choice(SWEEP_SIZES) for d in ["a", "b"][:force["nd"]]}
     dims = sorted(sizes)
     ld = dims[:]
     rng.shuffle(ld)
@@ -270,7 +349,7 @@ def gen_interval_case(rng, kind, malformed=False):
     rng.shuffle(ud)
     od = sub_dims(rng, dims, 0.7)
     n = nsize(sizes, dims)
-    nan_p = rng.choice([0.0, 0.0, 0.1, 0.25])
+    nan_p = rng.choice([0.0, 0.0, 0.1, 0.25] if not force else [0.0, 0.0, 0.1])
     # generate in sorted-dims layout, then transpose into each operand's own layout
     L = [core.dyadic(rng) for _ in range(n)]
     U = [L[i] + rng.choice([0.0, 0.25, 1.0, 2.5, core.dyadic(rng, 0, 8)]) for i in range(n)]
@@ -298,11 +377,9 @@ def gen_interval_case(rng, kind, malformed=False):
         return [NAN if rng.random() < nan_p else x for x in v]
     case = {"kind": kind, "sizes": sizes, "lower": spec_of(ld, sizes, nanify(lay(L, ld))),
             "upper": spec_of(ud, sizes, nanify(lay(U, ud))), "obs": spec_of(od, sizes, nanify(Yo)), "weights": None,
-            "req": gen_req(rng, dims), "params": {}, "malformed": bool(malformed)}
-    if rng.random() < 0.4:
-        wd = sub_dims(rng, dims, 0.5)
-        w = [rng.choice([0.0, 0.5, 1.0, 1.0, 2.0, NAN if rng.random() < 0.3 else 1.5]) for _ in range(nsize(sizes, wd))]
-        case["weights"] = spec_of(wd, sizes, w)
+            "req": force["req"] if "req" in force else gen_req(rng, dims), "params": {}, "malformed": bool(malformed)}
+    if force.get("weights", rng.random() < 0.4):
+        case["weights"] = gen_weights(rng, sizes, dims, [0.0, 0.5, 1.0, 1.0, 2.0], bool(force.get("weights")))
     if kind == "qis":
         a, b = rng.choice(BAD_LEVEL_PAIRS) if malformed == "param" else rng.choice(LEVEL_PAIRS)
         case["params"] = {"lower_level": S(a), "upper_level": S(b)}
@@ -311,13 +388,30 @@ def gen_interval_case(rng, kind, malformed=False):
     return case
 
 
-def gen_case(rng, kind=None, malformed_p=0.12):
+def gen_case(rng, kind=None, malformed_p=0.12, force=None):
     kind = kind or rng.choice(ALL_KINDS)
     if kind in ("qis", "interval"):
         m = rng.choice(["param", "order"]) if rng.random() < malformed_p * 1.5 else False
-        return gen_interval_case(rng, kind, m)
+        return gen_interval_case(rng, kind, m, force)
     m = kind == "quantile" and rng.random() < malformed_p * 2
-    return gen_point_case(rng, kind, m)
+    return gen_point_case(rng, kind, m, force)
+
+
+XARRAY_KINDS = [k for k in ALL_KINDS if not k.startswith("pandas_")]
+UNWEIGHTED_KINDS = ("pearsonr", "kge")
+
+
+def sweep_cases(rng, rounds=1):
+    """the systematic part: EVERY xarray-level function x EVERY spelling of the dims request (all_reqs) x without / with
+    weights (at least one weight other than 0/1), on 2-dim inputs (and, every other round, 1-dim inputs)"""
+    out = []
+    for rd in range(rounds):
+        for nd in ((2,) if rd % 2 == 0 else (1, 2)):
+            for kind in XARRAY_KINDS:
+                for req in all_reqs(["a", "b"][:nd]):
+                    for w in ((False,) if kind in UNWEIGHTED_KINDS else (False, True)):
+                        out.append(gen_case(rng, kind, malformed_p=0.0, force={"nd": nd, "req": dict(req), "weights": w}))
+    return out
 
 
 # ----------------------------------------------------------------------------- implementation side
@@ -570,6 +664,7 @@ def tags_of(case, impl):
     t = {"kind": case["kind"]}
     t["weights"] = case.get("weights") is not None
     t["req"] = next(iter(case["req"]), "none")
+    t["spelling"] = req_spelling(case["req"])
     return t
 
 
@@ -616,6 +711,7 @@ def account(ctx, batch, kind_, cases, results, theorem_of=None):
     for c, (impl, exp) in zip(cases, results):
         ctx.case(batch, c, nontrivial=nontrivial(impl, c))
         ctx.tag("kind:" + c["kind"])
+        ctx.tag("req:" + req_spelling(c["req"]) + ("+weights" if c.get("weights") is not None else ""))
         if c.get("malformed"):
             ctx.tag("malformed")
         if "err" in impl:
@@ -635,6 +731,8 @@ def correspondence(ctx):
     cases = [gen_case(rng, ALL_KINDS[i % len(ALL_KINDS)] if i < 3 * len(ALL_KINDS) else None) for i in range(n)]
     res = evaluate(cases, spec=False)
     account(ctx, "impl-vs-model", "correspondence", cases, res)
+    sw = sweep_cases(rng, ctx.n(1, 6))
+    account(ctx, "impl-vs-model-request-x-weights-sweep", "correspondence", sw, evaluate(sw, spec=False))
     # angular difference itself (public helper), incl. values far outside [0, 360)
     pairs = []
     for _ in range(ctx.n(300, 5000)):
@@ -670,9 +768,36 @@ THEOREM_OF = {"mse": "mse_eq_spec", "mae": "mae_eq_spec", "additive_bias": "addi
               "pbias": "pbias_eq_spec", "kge": "kge_value_eq_formula", "mse_ang": "angular_eq_spec", "mae_ang": "angular_eq_spec"}
 
 
-def relation_cases(rng, n):
-    """inputs for the relational laws (every dim preserved, so each law is per case)"""
+REL_W_POOL = [0.0, 0.25, 0.5, 1.0, 1.0, 2.0, 3.0, 1.5]
+SWEEP_SIZES = [1, 2, 2, 2, 3, 3, 3, 4]     # sizes of the systematic sweep: mostly >= 2 so that a reduction really averages
+
+
+def relation_variants(rng, sizes, k, start):
+    """k (request spelling, weights) combinations for one relational input, taken round-robin (start, start+1, ...) from
+    the full product  all_reqs(dims) x {no weights, weights}  so that consecutive inputs sweep the whole product.
+    Weights are NaN-free, non-negative, over a sub-list of the dims, with at least one value other than 0/1."""
+    dims = sorted(sizes)
+    prod = [(req, w) for req in all_reqs(dims) for w in (False, True)]
     out = []
+    for j in range(k):
+        req, w = prod[(start + j) % len(prod)]
+        ws = None
+        if w:
+            wd = sub_dims(rng, dims, 0.6) if len(dims) > 1 else dims[:]
+            wv = [rng.choice(REL_W_POOL) for _ in range(nsize(sizes, wd))]
+            if not any(x not in (0.0, 1.0) for x in wv):
+                wv[rng.randrange(len(wv))] = rng.choice([0.25, 0.5, 2.0, 3.0, 1.5])
+            ws = spec_of(wd, sizes, wv)
+        out.append({"req": dict(req), "weights": ws})
+    return out
+
+
+def relation_cases(rng, n, per_case=2):
+    """inputs for the relational laws.  The point-wise laws are evaluated with every dim preserved (per cell); the laws
+    between two public functions are ALSO evaluated for `per_case` (request spelling, weights) variants per input,
+    walking through every spelling x with/without weights (relation_variants)"""
+    out = []
+    start = rng.randrange(1000)
     for _ in range(n):
         sizes = gen_sizes(rng)
         dims = sorted(sizes)
@@ -684,13 +809,23 @@ def relation_cases(rng, n):
                     "r": S(rng.choice(RANGES)), "alpha": S(rng.choice(ALPHAS)),
                     "shift": rng.randint(-4, 4), "angles": [S(x) for x in vals(rng, m, True, 0.05)],
                     "angles2": [S(x) for x in vals(rng, m, True, 0.05)],
-                    "sf": [S(rng.choice([0.5, 1, 1, 2, 3])) for _ in range(3)]})
+                    "sf": [S(rng.choice([0.5, 1, 1, 2, 3])) for _ in range(3)],
+                    "variants": relation_variants(rng, sizes, per_case, start), "pk": start // per_case})
+        start += per_case
     return out
+
+
+def variant_label(v):
+    req = v["req"]
+    k = next((k for k in ("reduce_dims", "preserve_dims") if req.get(k) is not None), None)
+    txt = (k + "=" + repr(req[k])) if k else ("reduce_dims=None,preserve_dims=None" if req else "default")
+    return txt + (",weights" if v.get("weights") is not None else "")
 
 
 def relation_failures(rc):
     """evaluate every relational law on one input; returns list of (law, observed, expected)"""
     import scores.continuous as sc
+    import scores.pandas.continuous as spc
     from scores.continuous.correlation import pearsonr
     from scores.functions import angular_difference
     sizes = rc["sizes"]
@@ -705,11 +840,30 @@ def relation_failures(rc):
     def flat(x):
         return [float(v) for v in np.asarray(x.transpose(*dims).values, dtype=float).reshape(-1)]
 
+    def flatP(x):
+        """result of a call with an arbitrary request: (sorted dims, values in that order)"""
+        if isinstance(x, xr.DataArray):
+            ds = sorted(str(d) for d in x.dims)
+            return ds, [float(v) for v in np.asarray(x.transpose(*ds).values, dtype=float).reshape(-1)]
+        return [], [float(x)]
+
     def eq(law, a, b):
+        if len(a) != len(b):
+            bad.append((law, "length %d" % len(a), "length %d" % len(b)))
+            return
         for x, y in zip(a, b):
             if not core.close_ff(x, y):
                 bad.append((law, x, y))
                 return
+
+    def eqP(law, x, y, fx=None):
+        """two results of calls with the same request: same dims, same values (fx maps the left values first)"""
+        dx, vx = flatP(x)
+        dy, vy = flatP(y)
+        if dx != dy:
+            bad.append((law, "dims " + ",".join(dx), "dims " + ",".join(dy)))
+            return
+        eq(law, [fx(v) for v in vx] if fx else vx, vy)
     with np.errstate(all="ignore"):
         IS = sc.interval_score(Lo, Up, Y, r, preserve_dims=pd_)
         QI = sc.quantile_interval_score(Lo, Up, Y, (1 - r) / 2, (1 + r) / 2, preserve_dims=pd_)
@@ -768,6 +922,86 @@ def relation_failures(rc):
             rhs = b * b + sfx * sfx + sfy * sfy - 2 * sfx * sfy * rho
             if not core.close_ff(lhs, rhs, rtol=1e-8, atol=1e-8):
                 bad.append(("mse-decomposition", lhs, rhs))
+        # ---- pandas entry point = xarray entry point, for every way of asking the xarray function to reduce the one dim
+        y0 = xr.DataArray(np.array([F(x) for x in rc["Y"]], dtype=float), dims=["t"])
+        a1 = xr.DataArray(np.array([F(x) for x in rc["angles"]], dtype=float), dims=["t"])
+        b1 = xr.DataArray(np.array([F(x) for x in rc["angles2"]], dtype=float), dims=["t"])
+        t = "".join(["t"])
+        for fn in ("mse", "rmse", "mae"):
+            for ang, (u, v) in ((False, (x1, y0)), (True, (a1, b1))):
+                pv = float(getattr(spc, fn)(pd.Series(u.values), pd.Series(v.values), is_angular=ang))
+                kws = [{}, {"reduce_dims": None, "preserve_dims": None}, {"reduce_dims": "".join(["a", "ll"])},
+                       {"reduce_dims": t}, {"reduce_dims": [t]}, {"preserve_dims": []}]
+                if "pk" in rc:      # two of the six spellings per input, walking through all six over consecutive inputs
+                    kws = [kws[rc["pk"] % 6], kws[(rc["pk"] + 3) % 6]]
+                for kw1 in kws:
+                    xv = getattr(sc, fn)(u, v, is_angular=ang, **kw1)
+                    lab = "pandas=xarray:%s%s@%s" % (fn, "-angular" if ang else "", variant_label({"req": kw1}))
+                    if getattr(xv, "dims", ()) != ():
+                        bad.append((lab, "dims " + ",".join(map(str, xv.dims)), "scalar"))
+                    else:
+                        eq(lab, [pv], [float(xv)])
+        # ---- the laws between two public functions under EVERY request spelling, without and with weights
+        for vi, var in enumerate(rc.get("variants") or []):
+            at = "@" + variant_label(var)
+            try:
+                kw = req_kwargs(var)
+                if var.get("weights") is not None:
+                    kw["weights"] = mk(var["weights"])
+                R = reduce_set({"sizes": sizes, "req": var["req"]})
+                P = [d for d in dims if d not in R]
+                # the same request written as lists of fresh names (reduce every dim: reduce_dims=list of all)
+                canon = {"preserve_dims": ["".join(list(d)) for d in P]} if P else {"reduce_dims": list(pd_)}
+                if "weights" in kw:
+                    canon["weights"] = kw["weights"]
+                ISv = sc.interval_score(Lo, Up, Y, r, **kw)
+                QIv = sc.quantile_interval_score(Lo, Up, Y, (1 - r) / 2, (1 + r) / 2, **kw)
+                comps = ("total", "interval_width_penalty", "overprediction_penalty", "underprediction_penalty")
+                for v in comps:
+                    eqP("interval=qis-symmetric:" + v + at, ISv[v], QIv[v])
+                if sorted(map(str, ISv["total"].dims)) != P:
+                    bad.append(("request-meaning:interval_score" + at, "dims " + ",".join(sorted(map(str, ISv["total"].dims))), "dims " + ",".join(P)))
+                # width + penalties: the same cases must be averaged, so the interval ends are masked where obs is missing
+                okY = Y.notnull()
+                ISm = ISv if bool(okY.all()) else sc.interval_score(Lo.where(okY), Up.where(okY), Y, r, **kw)
+                eqP("total=width+penalties" + at, ISm["total"],
+                    ISm["interval_width_penalty"] + ISm["overprediction_penalty"] + ISm["underprediction_penalty"])
+                qsv = sc.quantile_score(Lo, Y, a / 2, **kw) + sc.quantile_score(Up, Y, 1 - a / 2, **kw)
+                eqP("interval=scaled-pinball-sum" + at, ISv["total"], (2 / a) * qsv)
+                width = sc.mae(Up, Lo, **kw)
+                eqP("obs-on-lower-end=mean-width" + at, sc.interval_score(Lo, Up, Lo, r, **kw)["total"], width)
+                eqP("obs-on-upper-end=mean-width" + at, sc.interval_score(Lo, Up, Up, r, **kw)["total"], width)
+                qa = sc.quantile_score(Lo, Y, al, **kw)
+                qv = flatP(qa)[1]
+                if any(x < 0 for x in qv if not math.isnan(x)):
+                    bad.append(("pinball-nonneg" + at, min(x for x in qv if not math.isnan(x)), 0.0))
+                tz = flatP(sc.quantile_score(Lo, Lo, al, **kw))[1]
+                eq("pinball-tie-zero" + at, tz, [0.0] * len(tz))
+                # every mean score once with this request (linear on f, o; angular on the angles)
+                G = {fn: getattr(sc, fn)(f, o, **kw) for fn in ("mse", "rmse", "mae", "additive_bias", "multiplicative_bias", "pbias")}
+                G.update({fn + "-angular": getattr(sc, fn)(An, Bn, is_angular=True, **kw) for fn in ("mse", "rmse", "mae")})
+                eqP("pinball(1/2)=mae/2" + at, sc.quantile_score(Lo, Y, 0.5, **kw), G["mae"] / 2)
+                eqP("rmse^2=mse" + at, G["rmse"], G["mse"], fx=lambda x: x * x)
+                eqP("rmse^2=mse:angular" + at, G["rmse-angular"], G["mse-angular"], fx=lambda x: x * x)
+                eqP("mean_error=additive_bias" + at, sc.mean_error(f, o, **kw), G["additive_bias"])
+                eqP("pbias=100(multiplicative_bias-1)" + at, G["pbias"], 100 * (G["multiplicative_bias"] - 1))
+                # angular variant = the linear function applied to the angular difference (against 0)
+                z = ad * 0.0
+                for fn in ("mae", "mse", "rmse"):
+                    eqP(fn + "-angular=" + fn + "(angular_difference,0)" + at, G[fn + "-angular"], getattr(sc, fn)(ad, z, **kw))
+                # a request means the same however it is written
+                for fn, got in G.items():
+                    base = fn.replace("-angular", "")
+                    args, more = ((An, Bn), {"is_angular": True}) if fn.endswith("-angular") else ((f, o), {})
+                    eqP("request-spelling-equivalence:" + fn + at, got, getattr(sc, base)(*args, **more, **canon))
+                    if sorted(map(str, getattr(got, "dims", ()))) != P:
+                        bad.append(("request-meaning:" + fn + at, "dims " + ",".join(sorted(map(str, getattr(got, "dims", ())))), "dims " + ",".join(P)))
+                eqP("request-spelling-equivalence:quantile_score" + at, qa, sc.quantile_score(Lo, Y, al, **canon))
+                ISc = sc.interval_score(Lo, Up, Y, r, **canon)
+                for v in comps:
+                    eqP("request-spelling-equivalence:interval_score:" + v + at, ISv[v], ISc[v])
+            except Exception as ex:  # noqa: BLE001  (a valid request on valid operands must not raise)
+                bad.append(("valid-request-accepted" + at, core.exc_class(ex) + ": " + str(ex)[:120], "a value"))
     return bad
 
 
@@ -781,6 +1015,8 @@ def oracle(ctx, boost):
         cases.append(c)
     res = evaluate(cases, spec=True)
     account(ctx, "impl-vs-textbook-spec", "property", cases, res, THEOREM_OF)
+    sw = sweep_cases(rng, ctx.n(1, 6) * min(mult, 2))
+    account(ctx, "impl-vs-textbook-spec-request-x-weights-sweep", "property", sw, evaluate(sw, spec=True), THEOREM_OF)
     pairs = []
     for _ in range(ctx.n(300, 5000) * mult):
         a = rng.choice([rng.randint(-20, 20) * 45.0, core.dyadic(rng, -1500, 1500, 4)])
@@ -790,9 +1026,12 @@ def oracle(ctx, boost):
     rcs = relation_cases(rng, ctx.n(120, 2500) * mult)
     for rc in rcs:
         ctx.case("relational-laws", rc)
+        for var in rc["variants"]:
+            ctx.tag("law-variant:" + req_spelling(var["req"]) + ("+weights" if var["weights"] is not None else ""))
         for law, obs, exp in relation_failures(rc):
-            ctx.fail("relational-laws", "property", law.split(":")[0], "law-fails", dict(rc, law=law), observed=obs, expected=exp,
-                     tags={"law": law}, theorem=law)
+            base = law.split("@")[0]
+            ctx.fail("relational-laws", "property", base.split(":")[0], "law-fails", dict(rc, law=law), observed=obs, expected=exp,
+                     tags={"law": base, "variant": law.split("@")[1] if "@" in law else "preserve-list"}, theorem=base)
 
 
 def replay(ctx, payload):
